@@ -89,12 +89,12 @@ PROPS.update({
         level_note=COMMON_NOTE,
         claimed=False),
     "C08": dict(
-        streams=[dict(cmd="C08")],
+        streams=[dict(cmd="C08"), dict(cmd="C08S", oracle_only=True)],
         technique="Lean 4 proof (lock-rank ordering of every public call's lock program implies progress) + lock-trace correspondence through the sync shim",
         level_text="Every public call's lock program is proved rank-ordered and balanced, which implies that some thread can always step; the programs are compared with "
                    "the acquire/release/join traces recorded from the real crate for every call x configuration.",
         level_note=COMMON_NOTE + "std::sync primitives modelled by their documented semantics; OS scheduler fairness not modelled.",
-        claimed=False),
+        ),
     "C09": dict(
         streams=[dict(cmd="C09", float_bits=True)],
         technique="Lean 4 theorems over an ordered field with an exponential weight + bit-level correspondence of the Float transcription",
@@ -127,14 +127,14 @@ PROPS.update({
         level_text="For every call sequence over scripted sources/sinks the wrapper position is proved to advance by exactly the bytes transferred; the real wrappers are run "
                    "on the same scripts and compared with the bare object and the model.",
         level_note=COMMON_NOTE,
-        claimed=False),
+        ),
     "C18": dict(
         streams=[dict(cmd="C18", oracle_only=True)],
         technique="Lean 4 theorem (logical state independent of the target, every history) + exhaustive fault-index enumeration per history on the real crate",
         level_text="Logical state is proved independent of whatever the terminal does; for generated histories every fault index (once and sticky) is run on the real crate "
                    "with catch_unwind per call, comparing getters with a fault-free twin.",
         level_note=COMMON_NOTE,
-        claimed=False),
+        ),
     "C19": dict(
         streams=[dict(cmd="C19")],
         technique="Lean 4 proof (kept row count never exceeds the terminal height, every frame sequence; wrapped height = rows of wrap) + differential correspondence",
